@@ -15,6 +15,9 @@ def canon(v, depth=0):
         return ['deep']
     if v is None:
         return ['none']
+    if isinstance(v, enum.Enum):
+        # (before int/str: members of mixin enums are ints / strs too)
+        return ['enum', getattr(type(v), '_sim_uid', None) or type(v).__name__, v.name]
     if isinstance(v, bool):
         return ['bool', v]
     if isinstance(v, int):
